@@ -369,6 +369,24 @@ def sc_helpers(layout, opt):
         kr = gs.krige.Ordinary(model, cp, cv)
         cp2, cv2, ce = lay(np.array(POS2) + 0.3, layout), lay(np.array(VAL) * 2, layout), lay([0.01, 0.02, 0.03, 0.04, 0.05, 0.06], layout)
         return {"cond_pos": cp2, "cond_val": cv2, "cond_err": ce}, (lambda: (kr.set_condition(cp2, cv2, cond_err=ce), kr(lay(POS2, "c")))[1])
+    if fn == "model_init":
+        # arrays handed to a model constructor / setter stay the caller's: not written, and not kept by reference
+        anis, ang, ls = lay([0.3, 0.4, 0.5], layout), lay([0.2, 0.1, 0.4, 0.3, 0.2, 0.1], layout), lay([2.0, 1.0, 4.0], layout)
+        roles = {"anis": anis, "angles": ang, "len_scale": ls}
+
+        def call():
+            out = []
+            for kw in (dict(dim=3, anis=anis[:2], angles=ang[:3]), dict(dim=4, anis=anis, angles=ang), dict(latlon=True, temporal=True, anis=anis), dict(temporal=True, spatial_dim=3, anis=anis, angles=ang), dict(dim=3, len_scale=ls)):
+                m_ = gs.Exponential(**kw)
+                out.append((m_, np.array(m_.anis), np.array(m_.angles)))
+            m_ = gs.Exponential(dim=4)
+            m_.anis = anis
+            m_.angles = ang
+            m_.len_scale = lay([2.0, 1.0, 4.0, 3.0], "c")
+            out.append((m_, np.array(m_.anis), np.array(m_.angles)))
+            return out
+
+        return roles, call
     if fn == "krige_get_mean":
         kr = gs.krige.Ordinary(model, cp, cv)
         return {"cond_pos": cp, "cond_val": cv}, (lambda: kr.get_mean())
@@ -397,6 +415,11 @@ def case_args(case):
     roles, call = SCEN[case["entry"]](case["layout"], case["opt"])
     extra = {"entry": case["entry"], "layout": case["layout"]}
     res = run_scenario(r, roles, call, extra)
+    if case["opt"].get("fn") == "model_init" and res is not None and case["layout"] != "ro":
+        for a in roles.values():
+            a *= 1.7  # the caller goes on using its arrays
+        for m_, an0, ag0 in res:
+            r.true("model parameters do not follow later changes of the arrays they were given as", bool(np.array_equal(np.array(m_.anis), an0) and np.array_equal(np.array(m_.angles), ag0)), info={"anis": np.array(m_.anis).tolist(), "was": an0.tolist()}, **extra)
     return r.done(outcome=sorted(roles), sub={"roles": len(roles)})
 
 
@@ -422,7 +445,7 @@ def arg_cases(tier):
     add("mean_norm_trend_tools", fn=["apply", "remove"], mesh=["unstructured", "structured"], check=[True, False], stacked=[False, True], **mnt)
     add("array_transform", fn=["discrete", "discrete_equal", "discrete_expl", "discrete_wrapper", "boxcox", "zinnharvey", "force_moments", "lognormal", "uniform", "arcsin", "uquad"])
     add("model_functions", fn=["variogram", "covariance", "correlation", "cor", "vario_nugget", "cov_nugget", "cov_spatial", "vario_spatial", "cor_spatial", "isometrize", "anisometrize", "spectrum", "spectral_density", "spectral_rad_pdf", "cov_yadrenko", "vario_yadrenko", "cor_yadrenko"], rot=[True, False])
-    add("public_helpers", fn=["get_scaling", "generator_call", "generator_nugget", "post_field", "krige_set_condition", "krige_get_mean"], nugget=[0.0, 0.3])
+    add("public_helpers", fn=["get_scaling", "generator_call", "generator_nugget", "post_field", "krige_set_condition", "krige_get_mean", "model_init"], nugget=[0.0, 0.3])
     add("geometry", fn=["latlon2pos", "pos2latlon", "generate_grid", "generate_st_grid", "rotated_main_axes"])
     out = []
     for c in cases:
